@@ -34,13 +34,14 @@ import hashlib
 from hypothesis import strategies as st
 
 from lib.core import hyp_run, enumerate_run
+from lib import harness
 
 META = dict(
     property="C48",
     level="exploration",
     technique="challenge/response histories against DigestCredentialFactory with owned clock and randomness; independent RFC 2617 client; catalogue of single alterations enumerated for every algorithm/form/route + Hypothesis histories with combined alterations",
-    level_text="Every alteration of a ~70-entry catalogue (password, nonce, opaque content/signature/time/address/base64 bytes, address, elapsed time around the lifetime, change or deletion of each response field, header damage) is applied alone to an honest response for md5/sha/md5-sess x qop=auth/RFC2069 form x cred/web route; Hypothesis generates histories of up to 3 challenges and 3 responses with 0-3 combined alterations, random credentials/uris/cnonces and header layouts. Sampled, not exhaustive.",
-    level_note="Trusted: hashlib, the client-side digest written here from RFC 2617, the description of the opaque layout (digest '-' base64(nonce,address,time)) used to forge altered opaques. Acceptance is judged from how the response was constructed. Values avoid '\"', control characters and leading/trailing blanks (the header grammar subset every client uses); quoted-pair escapes are not generated.",
+    level_text="Every alteration of a ~70-entry catalogue (password, nonce, opaque content/signature/time/address/base64 bytes, address, elapsed time around the lifetime, change or deletion of each response field, header damage) is applied alone to an honest response for md5/sha/md5-sess x qop=auth/RFC2069 form x cred/web/guard route (guard = the whole login through twisted.web.guard.HTTPAuthSessionWrapper with a portal, the Authorization header's scheme part included); Hypothesis generates histories of up to 3 challenges and 3 responses with 0-3 combined alterations, random credentials/uris/cnonces and header layouts. Sampled, not exhaustive.",
+    level_note="Trusted: hashlib, the client-side digest written here from RFC 2617, the description of the opaque layout (digest '-' base64(nonce,address,time)) used to forge altered opaques. Acceptance is judged from how the response was constructed. Values avoid '\"', control characters other than TAB and leading/trailing blanks (inner blanks, runs of blanks and TAB are generated) (the header grammar subset every client uses); quoted-pair escapes are not generated.",
     design_ref="§5 C48",
     rule="case = (algorithm, realm, key, route, ops); non-trivial = a response op that is honest (must be accepted) or carries at least one alteration; distinct by the whole response spec + elapsed time + addresses.",
 )
@@ -123,12 +124,79 @@ class _Req:
         return cls("TCP", self._host, 40000)
 
 
+class _GuardReq(_Req):
+    """What HTTPAuthSessionWrapper needs of a request."""
+
+    def __init__(self, method, host, authorization):
+        _Req.__init__(self, method, host)
+        self._authorization = authorization
+        self.prepath, self.postpath = [b"protected"], []
+
+    def getHeader(self, name):
+        return self._authorization if name.lower() == b"authorization" else None
+
+
+def _make_guard(webfactory):
+    """HTTPAuthSessionWrapper over a portal whose checker records the decoded credentials and
+    lets the login succeed iff checkPassword(the password the client used) says so."""
+    from zope.interface import implementer
+    from twisted.cred.checkers import ICredentialsChecker
+    from twisted.cred.credentials import IUsernameHashedPassword
+    from twisted.cred.error import UnauthorizedLogin
+    from twisted.cred.portal import IRealm, Portal
+    from twisted.internet import defer
+    from twisted.web.guard import HTTPAuthSessionWrapper
+    from twisted.web.resource import IResource, Resource
+
+    @implementer(ICredentialsChecker)
+    class Checker:
+        credentialInterfaces = (IUsernameHashedPassword,)
+        pw = None
+        seen = ()
+
+        def requestAvatarId(self, c):
+            self.seen = self.seen + (c,)
+            if c.checkPassword(self.pw):
+                return defer.succeed(c.username)
+            return defer.fail(UnauthorizedLogin())
+
+    @implementer(IRealm)
+    class Realm:
+        def requestAvatar(self, avatarId, mind, *interfaces):
+            return IResource, Resource(), lambda: None
+
+    checker = Checker()
+    return HTTPAuthSessionWrapper(Portal(Realm(), [checker]), [webfactory]), checker
+
+
+def _through_guard(guard, method, from_addr, authorization, pw):
+    """-> (verdict 'accepted'|'rejected'|'error500', credentials seen by the checker or None, logged failures)"""
+    from twisted.web._auth.wrapper import UnauthorizedResource
+    from twisted.web.util import DeferredResource
+    wrapper, checker = guard
+    checker.pw, checker.seen = pw, ()
+    with harness.captured_log() as events:
+        res = wrapper.getChildWithDefault(b"protected", _GuardReq(method, from_addr, authorization))
+        if isinstance(res, DeferredResource):
+            box = []
+            res.d.addBoth(box.append)
+            res = box[0] if box else None
+    failures = [ev["log_failure"] for ev in events if ev.get("log_failure") is not None]
+    if isinstance(res, UnauthorizedResource):
+        verdict = "rejected"
+    elif res is None or getattr(res, "code", None) == 500 or failures:
+        verdict = "error500"
+    else:
+        verdict = "accepted"
+    return verdict, (checker.seen[0] if checker.seen else None), failures
+
+
 def _exc_name(e):
     t = type(e)
     return t.__name__ if t.__module__ == "builtins" else f"{t.__module__}.{t.__name__}"
 
 
-def respond(ctx, case, fac, route, algo, realm, challenges, now, spec):
+def respond(ctx, case, fac, route, algo, realm, challenges, now, spec, guard=None):
     """One response op: build, alter, submit, judge."""
     from twisted.cred import error
     ch = challenges[spec["ch"] % len(challenges)]
@@ -283,24 +351,48 @@ def respond(ctx, case, fac, route, algo, realm, challenges, now, spec):
             header_level.append(k)
 
     from_addr = ADDRS[spec["from"] % len(ADDRS)] if spec.get("from") is not None else orig_ch["addr"]
-    if route == "web" and not isinstance(from_addr, str):
+    if route in ("web", "guard") and not isinstance(from_addr, str):
         from_addr = orig_ch["addr"]
     elapsed = now - ch["t"]
     d2, e2 = _verdict(spec, ch, elapsed, norm_addr(from_addr) == norm_addr(ch["addr"]))
     definite += d2
     either += e2
 
+    # -- the Authorization header's scheme part (only the guard route sees it)
+    scheme = b"Digest "
+    if route == "guard":
+        for a in alts:
+            if a[0] == "auth-scheme":
+                scheme = a[1]
+        if scheme != b"Digest ":
+            if scheme.lower().rstrip(b" \t") == b"digest" and scheme[-1:] in (b" ", b"\t"):
+                # scheme names are case-insensitive; extra blanks / a TAB as separator are a leniency either way
+                either.append("scheme-case-or-extra-blank")
+            else:
+                definite.append("scheme-altered")
+
     # -- submit
-    creds, outcome = None, None
+    creds, outcome, guard_verdict = None, None, None
+
+    class _Logged(Exception):
+        pass
     try:
-        if route == "web":
+        if route == "guard":
+            guard_verdict, creds, failures = _through_guard(guard, method, from_addr, scheme + header, pw)
+            if creds is None and failures:
+                raise _Logged(failures[0].value)
+            outcome = "decoded" if creds is not None else "loginfailed"
+        elif route == "web":
             creds = fac.decode(header, _Req(method, from_addr))
+            outcome = "decoded"
         else:
             creds = fac.decode(header, method, from_addr)
-        outcome = "decoded"
+            outcome = "decoded"
     except error.LoginFailed:
         outcome = "loginfailed"
     except Exception as e:  # anything else is exactly what the property forbids; reported below
+        if isinstance(e, _Logged):
+            e = e.args[0]       # what the wrapper logged before answering 500
         name = _exc_name(e)
         tb, funcs = e.__traceback__, []
         while tb is not None:
@@ -312,8 +404,9 @@ def respond(ctx, case, fac, route, algo, realm, challenges, now, spec):
         if name == "UnicodeDecodeError" and funcs[-2:] == ["decode", "nativeString"] and any(c > 127 for c in header):
             ctx.violation("decode-UnicodeDecodeError-on-non-ascii-parameter-name", case,
                           f"decode({header!r}) raised {e!r}")
-        ctx.violation(f"decode-raises-{name}[{','.join(sorted(set(definite + either + header_level))) or 'honest'}]", case,
-                      f"decode({header!r}, {method!r}, {from_addr!r}) raised {e!r}")
+        site = "guard" if (route == "guard" and "decode" not in funcs) else "decode"
+        ctx.violation(f"{site}-raises-{name}[{','.join(sorted(set(definite + either + header_level))) or 'honest'}]", case,
+                      f"{site}({(scheme + header) if site == 'guard' else header!r}, {method!r}, {from_addr!r}) raised {e!r}")
     if outcome == "decoded" and creds is None:
         ctx.violation("decode-returned-None", case, f"decode({header!r}) returned None")
 
@@ -369,6 +462,23 @@ def respond(ctx, case, fac, route, algo, realm, challenges, now, spec):
         if creds is not None:
             ctx.count(f"{vname}: verdict checked on decoded credentials, algorithm {use_algo}, "
                       + ("must-reject" if definite else "either" if (either or header_level) else "must-accept"))
+    if route == "guard":
+        # the verdict of the whole login, for the password the client used
+        if guard_verdict == "error500":
+            ctx.violation(f"guard-internal-error[{tag}]", case,
+                          f"Authorization: {scheme + header!r}: HTTPAuthSessionWrapper answered 500 / logged a failure")
+        if definite and guard_verdict == "accepted":
+            ctx.violation(f"guard-accepted-despite[{','.join(sorted(set(definite)))}]", case,
+                          f"Authorization: {scheme + header!r} from {from_addr!r} elapsed {elapsed}: login succeeded")
+        if not definite and not either and not header_level and guard_verdict != "accepted":
+            ctx.violation(f"guard-honest-response-rejected[{use_algo},{form}]", case,
+                          f"Authorization: {scheme + header!r} method {method!r} from {from_addr!r} elapsed {elapsed}: 401")
+        ctx.count("guard: login " + guard_verdict)
+        if any((b"  " in v or b"\t" in v) for v in fields.values()):
+            ctx.count("guard: a quoted value contains a run of blanks or a TAB, "
+                      + ("must-reject" if definite else "either" if (either or header_level) else "must-accept"))
+    if any((b"  " in v or b"\t" in v) for v in fields.values()):
+        ctx.count("values: a quoted value contains a run of blanks or a TAB")
     # bookkeeping
     ctx.count("response: " + ("must-reject" if definite else "either" if (either or header_level) else "must-accept"))
     ctx.count(f"response: {use_algo}/{form}/{route}")
@@ -399,10 +509,13 @@ def run_case(ctx, case):
     saved = credentials.secureRandom
     credentials.secureRandom = det_random
     try:
-        if route == "web":
+        guard = None
+        if route in ("web", "guard"):
             from twisted.web._auth.digest import DigestCredentialFactory as WebFactory
             fac = WebFactory(algo.encode(), realm)
             inner = fac.digest
+            if route == "guard":
+                guard = _make_guard(fac)
         else:
             fac = inner = credentials.DigestCredentialFactory(algo.encode(), realm)
         inner.privateKey = case["key"]
@@ -413,7 +526,7 @@ def run_case(ctx, case):
         for op in case["ops"]:
             if op[0] == "ch":
                 addr = ADDRS[op[1] % len(ADDRS)]
-                if route == "web":
+                if route in ("web", "guard"):
                     addr = ADDRS[WEB_ADDRS[op[1] % len(WEB_ADDRS)]]
                     c = fac.getChallenge(_Req(b"GET", addr))
                 else:
@@ -430,7 +543,7 @@ def run_case(ctx, case):
                 clock[0] += op[1]
             elif op[0] == "resp":
                 if challenges:
-                    cid, verdict, why = respond(ctx, case, fac, route, algo, realm, challenges, clock[0], op[1])
+                    cid, verdict, why = respond(ctx, case, fac, route, algo, realm, challenges, clock[0], op[1], guard)
                     if cid in answered:
                         ctx.count("history: response to a challenge already answered successfully: " + verdict
                                   + (" (expired only)" if why == ["expired"] else ""))
@@ -450,6 +563,8 @@ def base_spec(**kw):
     d.update(kw)
     return d
 
+
+VALUE_SHAPES = [b"bob", b"john smith", b"john  smith", b"tab\tuser", b"a \t  b", b"x,y=z", b"semi;colon", b"\xc3\xa9  \xc3\xa8"]
 
 CATALOGUE = [
     [],                                                     # honest
@@ -484,6 +599,12 @@ CATALOGUE = [
     [["hdr-garbage", b"\xff\xfe=1, username=\"x\""]], [["hdr-garbage", b"username=\"bob\""]],
     [["hdr-garbage", b"username=\"bob\", opaque=\"a-b\", nonce=\"c\""]], [["hdr-insert", 0, b"\xe9=1, "]],
     [["hdr-dup", "response", b"0" * 32]], [["hdr-dup", "opaque", b"a-YQ=="]],
+    # the scheme part of the Authorization header (seen by the twisted.web.guard route only)
+    [["auth-scheme", b"digest "]], [["auth-scheme", b"DIGEST "]], [["auth-scheme", b"Digest  "]], [["auth-scheme", b""]],
+    [["auth-scheme", b" "]], [["auth-scheme", b"Basic "]], [["auth-scheme", b"Digest"]], [["auth-scheme", b"Digest\t"]],
+    [["auth-scheme", b"\t"]], [["auth-scheme", b"Digestx "]],
+    [["auth-scheme", b" "], ["hdr-garbage", b""]], [["auth-scheme", b"   "], ["hdr-garbage", b"  "]], [["auth-scheme", b"\t"], ["hdr-garbage", b""]],
+    [["auth-scheme", b"Digest "], ["hdr-garbage", b""]], [["auth-scheme", b"Digest "], ["hdr-garbage", b" "]],
 ]
 
 
@@ -493,12 +614,20 @@ def enum_cases():
         for form in ("auth", "legacy"):
             if algo == "md5-sess" and form == "legacy":
                 continue
-            for route in ("cred", "web"):
+            for route in ("cred", "web", "guard"):
                 for alter in CATALOGUE:
                     n += 1
                     spec = base_spec(form=form, alter=alter, send_algo=(n % 3 != 0))
                     yield dict(algo=algo, realm=b"test realm", key=b"0123456789ab", rand=n, route=route,
                                ops=[["ch", 0], ["ch", 2], ["adv", 5], ["resp", spec]])
+                # shapes of quoted values (inner blanks, runs of blanks, TAB, separators) -- must arrive at the verifier unchanged
+                for user in VALUE_SHAPES:
+                    for uri in (b"/x", b"/a  b", b"/t\tab?q=1, r=2"):
+                        for pwx in (b"s3cret", b"pass  word"):
+                            n += 1
+                            yield dict(algo=algo, realm=(b"test  realm" if n % 2 else b"r"), key=b"0123456789ab", rand=n, route=route,
+                                       ops=[["ch", 1], ["adv", 3], ["resp", base_spec(form=form, user=user, uri=uri, pw=pwx,
+                                                                                        cnonce=(b"c  n" if n % 3 == 0 else b"0a4f113b"))]])
                 # environment alone: address and time
                 for frm in range(len(ADDRS)):
                     for chaddr in (0, 2, 3):
@@ -521,7 +650,7 @@ def enum_cases():
                                    ops=[["ch", 1], ["adv", dt], ["resp", base_spec(form=form)]])
 
 
-CONFIGS = [(a, f, r) for a in ALGOS for f in ("auth", "legacy") for r in ("cred", "web") if not (a == "md5-sess" and f == "legacy")]
+CONFIGS = [(a, f, r) for a in ALGOS for f in ("auth", "legacy") for r in ("cred", "web", "guard") if not (a == "md5-sess" and f == "legacy")]
 
 
 def pair_cases(config):
@@ -544,9 +673,10 @@ def strategies():
     safe = st.characters(min_codepoint=33, max_codepoint=126, blacklist_characters='"\\')
     word = st.one_of(
         st.text(safe, min_size=1, max_size=8).map(lambda s: s.encode()),
+        st.sampled_from([b"john  smith", b"tab\tuser", b"a \t  b"]),
         st.sampled_from([b"bob", b"a:b", b"x y", b"a,b=c", b"\xc3\xa9l\xc3\xa8ve", b"Mufasa", b"p=1, q=\"".replace(b'"', b"'")]))
     pw = st.one_of(word, st.sampled_from([b"", b"Circle Of Life", b":", b"pass:word"]))
-    uri = st.one_of(st.sampled_from([b"/", b"/dir/index.html", b"/a?b=c,d=e", b"*", b"http://h/p?q=1"]),
+    uri = st.one_of(st.sampled_from([b"/", b"/dir/index.html", b"/a?b=c,d=e", b"*", b"http://h/p?q=1", b"/a  b", b"/t\tx"]),
                     st.text(safe, min_size=1, max_size=12).map(lambda s: b"/" + s.encode()))
     hexs = st.text(st.sampled_from("0123456789abcdef"), min_size=1, max_size=16).map(lambda s: s.encode())
     fieldname = st.sampled_from(["username", "realm", "nonce", "uri", "response", "opaque", "algorithm", "qop", "nc", "cnonce"])
@@ -574,6 +704,8 @@ def strategies():
             [b"", b"=", b"a=", b"=b", b"\xff=1", b'username="x", opaque="\xff-\xff", nonce="1"', b'username="x",opaque="a-AAA",nonce="1"']))).map(list),
         st.tuples(st.just("hdr-insert"), st.integers(0, 400), st.one_of(st.binary(max_size=6), st.sampled_from([b'"', b",", b"=", b"\r\n", b"\xe9=1, "]))).map(list),
         st.tuples(st.just("hdr-dup"), fieldname, st.one_of(word, hexs)).map(list),
+        st.tuples(st.just("auth-scheme"), st.sampled_from([b"digest ", b"DIGEST ", b"Digest  ", b"", b" ", b"  ", b"\t", b"Basic ", b"Digest",
+                                                          b"Digest\t", b"Negotiate "])).map(list),
     )
     spec = st.builds(
         lambda ch, user, p, method, u, form, nc, cn, alter, order, bare, sep, frm, algo, send_algo, others: dict(
@@ -596,7 +728,7 @@ def strategies():
     case = st.builds(
         lambda algo, realm, key, rand, route, t0, first, ops: dict(algo=algo, realm=realm, key=key, rand=rand, route=route,
                                                                     t0=t0, ops=[["ch", first]] + ops),
-        st.sampled_from(ALGOS), word, st.binary(min_size=1, max_size=12), st.integers(0, 2 ** 32), st.sampled_from(["cred", "cred", "web"]),
+        st.sampled_from(ALGOS), word, st.binary(min_size=1, max_size=12), st.integers(0, 2 ** 32), st.sampled_from(["cred", "cred", "web", "guard", "guard"]),
         st.sampled_from([0, 0, 0.5, 0.99]), st.integers(0, len(ADDRS) - 1), st.lists(op, min_size=1, max_size=6))
     return case
 
@@ -618,7 +750,7 @@ def run(ctx):
         enumerate_run(ctx, pair_cases(("md5", "auth", "cred")), run_case)
         if ctx.has_violation():
             return
-        hyp_run(ctx, strategies(), run_case, 3000, label="histories")
+        hyp_run(ctx, strategies(), run_case, 2000, label="histories")
 
 
 def _hyp_shard(sub, i):
